@@ -868,6 +868,9 @@ func (sc *Scope) call(n *ast.CallExpr) Val {
 				return sc.convert(sc.expr(n.Args[0]), t)
 			}
 		}
+		if ap := e.ctx.absPredKey(sc.pkg, id.Name); ap != "" && len(n.Args) == 1 {
+			return sc.applyAbsPred(ap, id.Name, sc.expr(n.Args[0]))
+		}
 		if sf, ok := e.ctx.specFn(sc.pkg, id.Name); ok {
 			return sc.applySpec(sf, n.Args)
 		}
@@ -883,6 +886,27 @@ func (sc *Scope) call(n *ast.CallExpr) Val {
 		var args []Val
 		for _, a := range n.Args {
 			args = append(args, sc.expr(a))
+		}
+		if recv.Loc == nil && isIface(recv.T) && len(recv.L) == 2 {
+			// interface receiver: statically known dynamic type, or an abstract pure method
+			if id, ok := constInt(recv.L[0]); ok && id != 0 {
+				if t := e.ctx.typeByID(int(id)); t != nil {
+					rv := Val{T: t, L: []string{recv.L[1]}}
+					if bx, found := e.boxed[recv.L[1]]; found {
+						rv = bx
+					}
+					return sc.pureMethod(rv, sel.Sel.Name, args)
+				}
+			}
+			if m := ifaceMethod(recv.T, sel.Sel.Name); m != nil && e.ctx.isAbsMethod(m) {
+				st := sc.st
+				r := sc.reach
+				if r == "" {
+					r = "true"
+				}
+				return e.absCall(recv, m, &st, r, sc.bound == 0)
+			}
+			return sc.fail("method %s on interface %s: dynamic type unknown and not an absmethod", sel.Sel.Name, typeKey(recv.T))
 		}
 		return sc.pureMethod(recv, sel.Sel.Name, args)
 	}
@@ -921,10 +945,21 @@ func (sc *Scope) applySpec(sf *SpecFn, args []ast.Expr) Val {
 	if sc.depth > 40 {
 		return sc.fail("spec %s: expansion too deep (recursive?)", sf.Name)
 	}
+	var vals []Val
+	for _, a := range args {
+		vals = append(vals, sc.expr(a))
+	}
+	return sc.applySpecVals(sf, vals)
+}
+
+func (sc *Scope) applySpecVals(sf *SpecFn, args []Val) Val {
+	if len(args) != len(sf.Params) {
+		return sc.fail("spec %s: arity", sf.Name)
+	}
 	pkg := sc.e.ctx.typesPkg(sf.Pkg)
-	c := &Scope{e: sc.e, st: sc.st, old: sc.old, names: map[string]Val{}, pkg: pkg, err: sc.err, depth: sc.depth + 1}
+	c := &Scope{e: sc.e, st: sc.st, old: sc.old, names: map[string]Val{}, pkg: pkg, err: sc.err, depth: sc.depth + 1, bound: sc.bound, reach: sc.reach}
 	for i, p := range sf.Params {
-		v := sc.expr(args[i])
+		v := args[i]
 		t := sc.e.ctx.parseType(pkg, p.Type)
 		if t == nil {
 			return sc.fail("spec %s: unknown type %s", sf.Name, p.Type)
@@ -942,6 +977,17 @@ func (sc *Scope) applySpec(sf *SpecFn, args []ast.Expr) Val {
 			v = Val{T: t, L: v.L}
 		}
 		c.names[p.Name] = v
+	}
+	if sf.Rec {
+		var vals []Val
+		for _, p := range sf.Params {
+			v := c.names[p.Name]
+			if v.Loc != nil {
+				return sc.fail("spec rec %s: structural argument", sf.Name)
+			}
+			vals = append(vals, v)
+		}
+		return sc.applyRec(sf, vals)
 	}
 	r := c.formula(sf.Body)
 	if sf.Ret != "" {
